@@ -14,10 +14,10 @@ ID = "C08"
 RULE = (
     "Hypothesis draws a heavy flavour (charm with NfFF=3 or bottom with NfFF=4; heavier quarks get the same mass so that every "
     "massive piece is in the asymptotic regime), its mass, a grid, x between the lower grid edge (1e-4..3e-3) and 0.7 on/off nodes, process/kind from {NC,EM: F2, FL, g1; "
-    "CC: F2, FL, F3}, heavyness {heavy flavour, light (missing), total}, PTO 0-2 and a ladder xi=Q2/m2 = 1e2,1e3,1e4,1e5,1e6 plus a "
+    "CC: F2, FL, F3}, target (proton, neutron, iron, generated Z/A), heavyness {heavy flavour, light (missing), total}, PTO 0-2 and a ladder xi=Q2/m2 = 1e2,1e3,1e4,1e5,1e6 plus a "
     "generated intermediate value; FFNS and FFN0 are run on the same card. Oracle per order key and operator entry: "
     "D(xi) = max|O_FFNS - O_FFN0| / S with S = max(|O_FFN0 entries| at that xi, LO F2 parton-model entries) must satisfy "
-    "D(xi) <= P (1+ln xi)^(2o)/xi + 2e-4 with P = max(kappa A_o, 3 D(1e2) 1e2/(1+ln 1e2)^(2o)), A = (30, 10, 1), kappa = max(1, (1+G)/3), G = max_j |dp_j/dln x| of the grid's basis next to x, and D(1e6) <= 0.05 max(D(1e2), 2e-3). Requests the massive library "
+    "D(xi) <= max(kappa A_o, P) s(xi) + 2e-4 with s(xi) = (1+ln xi)^(2o)/xi, P = 3 max_{xi<=1e4} D(xi)/s(xi), A = (30, 10, 1), kappa = max(1, (1+G)/3), G = max_j |dp_j/dln x| of the grid's basis next to x, and D(1e6) <= P s(1e6) + 1e-4. (every xi<=1e4 is an anchor: the difference can be accidentally small at one xi). Requests the massive library "
     "refuses ('high virtuality limit not known') are rejections. Non-trivial = FFNS and FFN0 tensors non-zero and different at xi=1e2."
 )
 ASSUMPTIONS = [
@@ -33,7 +33,7 @@ ASSUMPTIONS = [
 ]
 BUDGET = {"quick": {"examples": 320, "wall": 500, "min_evaluations": 100}, "thorough": {"examples": 6000, "wall": 2400, "min_evaluations": 1500}}
 MANDATORY = {
-    t: ["nontrivial", "process:NC", "process:CC", "heavyness:heavy", "heavyness:light", "heavyness:total", "order:1", "order:2", "kind:F2", "kind:FL", "kind:g1", "kind:F3", "h:charm", "h:bottom", "small-x:eta>1e8-reached"]
+    t: ["nontrivial", "process:NC", "process:CC", "heavyness:heavy", "heavyness:light", "heavyness:total", "order:1", "order:2", "kind:F2", "kind:FL", "kind:g1", "kind:F3", "h:charm", "h:bottom", "small-x:eta>1e8-reached", "target:other"]
     for t in ("quick", "thorough")
 }
 SHRINK = {"quick": False, "thorough": True}
@@ -70,6 +70,13 @@ def cases(draw, tier="quick"):
     proj = draw(st.sampled_from(["electron", "positron"] if process == "EM" else cards.PROJECTILES))
     ob = cards.observables(prDIS=process, ProjectileDIS=proj)
     cards.apply_grid(ob, grid)
+    # the ladder is one run of six points: on a target whose isospin rotation is neither the identity nor idempotent anything that
+    # is carried from point to point on one side only (massive or asymptotic) breaks the limit
+    tgt = draw(st.sampled_from(["proton", "proton", "neutron", "iron", "ZA"]))
+    if tgt == "ZA":
+        a_ = round(draw(st.floats(1.0, 240.0)), 3)
+        tgt = {"A": a_, "Z": round(draw(st.floats(0.0, 1.0)) * a_, 3)}
+    ob["TargetDIS"] = tgt
     xi_extra = 10.0 ** round(draw(st.floats(2.0, 6.0)), 2)
     name = f"{kind}_{hv}"
     return {"theory": th, "obs": ob, "x": x, "m": m, "xi_extra": xi_extra, "h": h,
@@ -125,6 +132,7 @@ def check_case(case):
     kin = [{"x": x, "Q2": xi * m * m} for xi in xis]
     f2name = f"F2_{hv}"
     ob["observables"] = {name: kin}
+    v.label("target:proton" if ob.get("TargetDIS", "proton") == "proton" else "target:other")
     v.label(f"process:{'NC' if meta['process'] != 'CC' else 'CC'}", f"kind:{kind}", f"h:{case['h']}",
             "heavyness:heavy" if hv == case["h"] else f"heavyness:{hv}")
     with warnings.catch_warnings(), np.errstate(all="ignore"):
@@ -158,7 +166,8 @@ def check_case(case):
         # prefactor of the power law: the calibrated constant, scaled with the steepness of the basis, or three times the one
         # observed at the lower end of the ladder - whichever is larger (it belongs to the grid and the z range a basis
         # function probes; the property is the fall-off from there)
-        pref = max(kappa * A[o], 3.0 * ds[1e2] / shape(1e2))
+        anchor = 3.0 * max(ds[xi] / shape(xi) for xi in xis if xi <= 1e4)
+        pref = max(kappa * A[o], anchor)
         hv_ = "heavy" if hv == case["h"] else hv
         proc_ = "NC" if meta["process"] != "CC" else "CC"
         hq_ = 4 if case["h"] == "charm" else 5
@@ -177,8 +186,10 @@ def check_case(case):
                 failed = True
                 break
         if not failed:
+            # fall-off between the lower part of the ladder and its upper end, without the calibrated constant: the difference
+            # may be accidentally small at one value of xi (sign change), so every xi <= 1e4 is an anchor
             d2, d6 = ds[1e2], ds[1e6]
-            lim = 0.05 * max(d2, 2e-3)
+            lim = anchor * shape(1e6) + FLOOR
             v.metric(f"decay:o{o}", d6 / lim)
             if not d6 <= lim:
                 rcl = row_class(ab[1e6][0] - ab[1e6][1], hq_)
